@@ -42,7 +42,7 @@ def main():
             rc, out = sh('sh %s %s' % (demo, ucg), d, timeout=600)
             res['demo_with_change_rc'] = rc
         if '--confirm' in sys.argv:
-            rc, out = sh('CARGO_TARGET_DIR=/scratch/seedrun_target cargo test --workspace --no-fail-fast --offline 2>&1 | grep -E "^test result" | head -1', REPO, timeout=3600)
+            rc, out = sh('CARGO_TARGET_DIR=%s_target cargo test --workspace --no-fail-fast --offline 2>&1 | grep -E "^test result" | head -1' % REPO, REPO, timeout=3600)
             res['test_suite_with_change'] = out.strip()
         for c in checks:
             for tier in ('quick', 'thorough'):
